@@ -134,8 +134,16 @@ def tensor_json(a) -> dict:
     return {"shape": list(a.shape), "data": [fr(float(x)) for x in flat]}
 
 
+INEXACT = {"count": 0}
+INEXACT_RTOL = 1e-12
+
+
 def same_number(impl_x, model_s: str, tol: float | None = None) -> bool:
-    """Compare an implementation float with a model rational string."""
+    """Compare an implementation float with a model rational string.
+
+    `tol=None` is the exact stream: equality of rationals. A difference below 1e-12 relative is classified as an
+    "inexact case" (the generator's bit budget was exceeded, so some float operation of the implementation had to
+    round): counted in INEXACT, not alarmed (DESIGN section 4)."""
     import math
 
     x = float(impl_x)
@@ -149,8 +157,33 @@ def same_number(impl_x, model_s: str, tol: float | None = None) -> bool:
         return False
     q = Fr(model_s)
     if tol is None:
-        return Fr(x) == q
+        if Fr(x) == q:
+            return True
+        if abs(Fr(x) - q) <= Fr(INEXACT_RTOL) * max(Fr(1), abs(q)):
+            INEXACT["count"] += 1
+            return True
+        return False
     return abs(x - float(q)) <= tol * max(1.0, abs(float(q)))
+
+
+def close_floats(a, b) -> bool:
+    """implementation-vs-implementation comparison of two float arrays on the exact stream (see same_number)"""
+    import numpy as np
+
+    a = np.asarray(a, dtype=float)
+    b = np.asarray(b, dtype=float)
+    if a.shape != b.shape:
+        return False
+    if np.array_equal(a, b):
+        return True
+    fin = np.isfinite(a) & np.isfinite(b)
+    if not np.array_equal(np.where(fin, 0.0, a), np.where(fin, 0.0, b), equal_nan=True):
+        return False
+    ok = np.abs(a[fin] - b[fin]) <= INEXACT_RTOL * np.maximum(1.0, np.abs(b[fin]))
+    if bool(np.all(ok)):
+        INEXACT["count"] += int(np.sum(a[fin] != b[fin]))
+        return True
+    return False
 
 
 # --------------------------------------------------------------------------------------
